@@ -5,7 +5,7 @@ import os
 from jugverif import core, graphcheck as G, genprog
 
 LEVEL = 'proof'
-THEOREMS = ['Jug.C15.classify_spec', 'Jug.C15.totals_add_up', 'Jug.C15.cached_eq_uncached', 'Jug.C15.check_iff', 'Jug.C15.classifier_table_matches']
+THEOREMS = ['Jug.C15.classify_spec', 'Jug.C15.totals_add_up', 'Jug.C15.cached_eq_uncached', 'Jug.C15.check_iff', 'Jug.C15.classifier_table_matches', 'Jug.C15.graph_classifier_eq']
 
 
 def extract():
@@ -70,6 +70,17 @@ def check(run):
                 h2, rows2, total2, _ = G.real_status(P, be, cached=True, cache_file=cf)
                 if rows2 != exp_rows or total2 != exp_total:
                     run.fail('status-cached-wrong', '`jug status --cache` (new cache) prints %s / Total %s, uncached semantics give %s / Total %s' % (rows2, total2, exp_rows, exp_total), rp)
+                # `jug graph` carries its own copy of the classifier: the counters in the dot file
+                try:
+                    grows = G.real_graph_counts(P, be)
+                    run.count('graph_dot_files')
+                    if grows != exp_rows:
+                        badg = {k: (grows.get(k), exp_rows.get(k)) for k in set(grows) | set(exp_rows) if grows.get(k) != exp_rows.get(k)}
+                        run.fail('graph-status-wrong', '`jug graph` on the %s store labels the nodes (Failed, Waiting, Ready, Complete, Active) %s; the store state implies %s'
+                                 % (kind, {k: v[0] for k, v in list(badg.items())[:3]}, {k: v[1] for k, v in list(badg.items())[:3]}), rp)
+                except Exception as e:
+                    if type(e).__name__ not in ('ImportError', 'ModuleNotFoundError'):
+                        raise
                 # check
                 closed = all(all(res[dd] for dd in P['info'][i]['reported']) for i in range(n) if res[i])
                 rc = G.real_check(P, be)
